@@ -918,6 +918,8 @@ def jobs(tier):
     js = [{"kind": "seq", "shard": i, "n": n} for i in range(32)]
     js += [{"kind": "grid", "shard": i, "nshard": NGRID} for i in range(NGRID)]
     js.append({"kind": "variants"})
+    # decks holding many distinct images (two-digit image part numbers: image10 sorts before image2 as text)
+    js += [{"kind": "many", "shard": i, "n": 60 if tier == "thorough" else 5} for i in range(8)]
     return js
 
 
@@ -959,6 +961,27 @@ def run_job(job, seed, tier, rec, known):
                     skip.add(x["key"])
                     fails.append(x)
         return fails
+    if kind == "many":
+        from hypothesis import strategies as st
+        base = strategies()
+        # reuse the image and op strategies of the sequence search through the case strategy itself
+        def widen(cs):
+            pool = []
+            seen = set()
+            for c in cs:
+                for p in c["pool"]:
+                    k = repr(sorted(p.items()))
+                    if "start" not in p and k not in seen:
+                        seen.add(k)
+                        pool.append(p)
+            pool = pool[:16]
+            ops = [["pic", j, j % 3, ["stream", "path", "file"][j % 3], j % 5, "none", 0, 0] for j in range(len(pool))]
+            extra = [o for c in cs for o in c["ops"] if o[0] in ("pic", "reopen", "save", "slide")][:8]
+            mid = len(ops) // 2
+            return {"start": "default", "pool": pool or cs[0]["pool"], "ops": ops[:mid] + extra[:3] + ops[mid:] + extra[3:]}
+        strat = st.lists(base, min_size=5, max_size=8).map(widen)
+        return hyp_search(_make_fn(rec, known, set()), strat, seed=seed, max_examples=job["n"], rec=rec, known={},
+                          max_rounds=2, shrink_budget=30)
     if kind == "grid":
         cases = grid_cases(tier, job["shard"], job["nshard"])
         return _plain_all(cases, rec, known)
